@@ -1,5 +1,5 @@
 /-
-Simple programs: walk facts ⇒ `isoCond`, hence ⇒ `alignedOf` (with `cond_of_walk_facts`), hence the binding structure is preserved.
+Walk facts ⇒ `isoCond`, hence ⇒ `alignedOf` (with `cond_of_walk_facts`), hence the binding structure is preserved.
 -/
 import CalmVerif.Proofs.ObfIso3
 namespace CalmVerif.Obf
@@ -59,7 +59,7 @@ theorem isoCond_of_walk_facts (fl : Flags) (program : Val) (st : St) (fin : Fina
     simpa using hf.1.1.1.1.1
   exact root_table_nil g fin.tree hbt A hrec hk
 
-/-- **simple programs**: walk facts and `noArgsValue` give the full decidable agreement `alignedOf` -/
+/-- walk facts and `noArgsValue` give the full decidable agreement `alignedOf` -/
 theorem aligned_of_walk_facts (fl : Flags) (program : Val) (st : St) (fin : Final)
     (hcs : Gen.ObfData.charset.Nodup ∧ Gen.ObfData.charset ≠ [])
     (hpre : prewalk tablesGen fl.shadowFuncname program = .ok st)
